@@ -69,7 +69,10 @@ AttrSubsets == {{"sip"}, {"dip"}, {"sip", "dip"}, {"dport", "proto"}, {"proto"},
 
 QuickTrees == FullAtoms \cup {Not(a) : a \in Core7 \cup AddrAtoms}
               \cup {And(x, y) : x, y \in Core6} \cup {Or(x, y) : x, y \in Core6}
-ThoroughTrees == Grow(FullAtoms \ SugarAtoms) \cup Grow(Core7 \cup SugarAtoms)
+\* two thirds of all pairs of base atoms (which third is left out depends on the seed)
+PairTrees == {And(x, y) : x, y \in FullAtoms \ SugarAtoms} \cup {Or(x, y) : x, y \in FullAtoms \ SugarAtoms}
+Sampled(S) == LET q == SetToSeq(S) IN {q[j] : j \in {j \in 1..Len(q) : (j + Seed) % 3 # 0}}
+ThoroughTrees == FullAtoms \cup {Not(a) : a \in FullAtoms} \cup Sampled(PairTrees) \cup Grow(Core7 \cup SugarAtoms)
 
 CondQueries(T) == {Q(GIfaces, AllAttrs, t) : t \in T}
                   \cup {Q(GIfaces, a, t) : a \in AttrSubsets, t \in CoreTrees \cup {NoCond}}
